@@ -5,7 +5,7 @@ from tools.harness import common, route as R
 ID = 'C11'
 TARGETS = ['MindsVerif.Props.C11']
 THEOREMS = ['MindsVerif.Props.C11.' + n for n in (
-    'C11_decision', 'C11_decision_sound', 'C11_names', 'C11_partial_resolution', 'C11_witness_1',
+    'C11_decision', 'C11_decision_sound', 'C11_names', 'C11_partial_resolution', 'C11_witness_1', 'C11_witness_2',
     'C11_resolution_full_false')]
 ASSUME = [
     'get_query_info, check_single_integration, prepare_integration_select and the walker are hand-modelled '
@@ -45,6 +45,14 @@ def run_sql(conn, sql):
         return [d[0] for d in cur.description], rows, None
     except sqlite3.Error as e:
         return None, None, str(e)
+
+
+def cte_ref_tag(cat, ast):
+    """the statement refers to one of its CTEs as a table while the default namespace is not a project"""
+    names = {str(c) for c in all_cte_names(ast)}
+    sp = cat.spec()
+    used = any(len(i.parts) == 1 and str(i.parts[0]) in names for i, _ in R.table_refs(ast))
+    return used and (sp['dns'] is None or sp['dns'] not in sp['projects'])
 
 
 def tags_of(ast, pushed):
@@ -94,23 +102,28 @@ def probe_case(cat, sql, dbs):
         fails.append(f)
     # is the original a meaningful query at all?  (reference engine, first database)
     names0, rows0, err0 = run_sql(dbs[0][0], sql)
-    if err0 is not None:
-        return [], 'orig-error'
+    # (when sqlite3 cannot run the original, e.g. `int1.t.*`, only the structural oracles apply)
     try:
         plan = plan_query(copy.deepcopy(ast), **copy.deepcopy(cat.kwargs()))
     except Exception as e:
-        fail('not-planned', 'single-integration query is not planned: %s: %s' % (type(e).__name__, str(e)[:150]), tags_of(ast, None))
+        fail('not-planned', 'single-integration query is not planned: %s: %s' % (type(e).__name__, str(e)[:150]), tags_of(ast, None) + (['cte-ref-default-not-project'] if cte_ref_tag(cat, ast) else []))
         return fails, 'exception'
     steps = plan.steps
     if not (len(steps) == 1 and type(steps[0]).__name__ == 'FetchDataframeStep' and steps[0].integration == DB
             and steps[0].query is not None):
         fail('not-single-fetch', 'expected exactly one fetch step for %r, got %s' % (DB, [str(x) for x in R.plan_summary(plan)][:5]),
-             tags_of(ast, None))
+             tags_of(ast, None) + (['cte-ref-default-not-project'] if cte_ref_tag(cat, ast) else []))
         return fails, 'not-single'
     pushed = steps[0].query
     ptext = str(pushed)
     tags = tags_of(ast, pushed)
-    for fed, loc in dbs:
+    aliases = R.all_aliases(ast) | {str(c).lower() for c in all_cte_names(ast)}
+    for i, ipath in R.all_identifiers(pushed):
+        if len(i.parts) > 1 and isinstance(i.parts[0], str) and i.parts[0].lower() == DB and DB not in aliases:
+            fail('unstripped', 'identifier %s of the pushed query %r still starts with the integration name' % (
+                '.'.join(str(p) for p in i.parts), ptext), tags, pushed=ptext, identifier=[str(p) for p in i.parts])
+            break
+    for fed, loc in (dbs if err0 is None else []):
         names, rows, err = run_sql(fed, sql)
         pn, pr, perr = run_sql(loc, ptext)
         if err is not None:
@@ -130,7 +143,7 @@ def probe_case(cat, sql, dbs):
             fail('names-differ', 'pushed query %r returns columns %s, the original %s' % (ptext, pn, names), tags,
                  pushed=ptext, expected=names, got=pn)
             break
-    return fails, 'pushed'
+    return fails, 'pushed' if err0 is None else 'pushed-not-executable-in-sqlite'
 
 
 def kf_match(k, f):
@@ -237,7 +250,7 @@ def single_catalog(rng):
     else:
         ints = [('d', 'int1', 'data', rng.choice([None, 'sql'])), ('d', 'int2', 'data', 'sql')]
     pm = rng.choice([None, ('list', [('pred', 'mindsdb')]), ('legacy', [('pred', None)])])
-    return R.Cat(ints, rng.choice([None, 'mindsdb']), pm, rng.choice(['mindsdb', 'mindsdb', 'int1', None, 'proj']))
+    return R.Cat(ints, rng.choice([None, 'mindsdb']), pm, rng.choice(['mindsdb', 'mindsdb', 'mindsdb', 'int1', None, 'proj']))
 
 
 def run(chk):
